@@ -7,6 +7,7 @@
 INPKG = {
     "pkg/cache": {"dir": "cache", "clock_subst": ["cache.go"]},
     "cmd/glyph": {"dir": "cmdglyph"},
+    "pkg/server": {"dir": "server", "clock_subst": ["middleware.go"]},
 }
 
 HOOK_COMMITS = []   # no guarded source change is committed in /repo; overlays only
@@ -98,6 +99,21 @@ CHECKS = {
         "assumptions": ["markers: every route returns {route: <declaration index>, <param>: <value>...}, so the body that ran and its bindings are read from the response"],
         "units": [
             {"name": "c05-route", "bin": "cmdglyph", "build": "inpkg:cmd/glyph", "run": "^TestC05Route$", "quick": 20000, "thorough": 1000000},
+        ],
+    },
+    "C06": {
+        "level": "exploration",
+        "manifest": {
+            "technique": "property-based testing (rapid) over credential configuration x auth type x header shapes x client histories on a virtual clock, with a three-valued oracle (must reject / must accept / unspecified), through the real middleware chain in both execution modes",
+            "level_text": "Each case sets GLYPH_JWT_SECRET / GLYPH_API_KEYS (unset, empty, blank, padded, one, several), declares protected and unprotected routes (jwt, apikey in several casings, other identifiers), starts the module compiled or interpreted and sends a history of requests: canonical credentials, raw / lower-case / double-space / glued / other-scheme / bit-flipped / upper-cased secrets, duplicate header lines, X-API-Key variants, forged X-Forwarded-For / X-Real-IP, repeated failures and pauses on the virtual clock. Closed rule: a body runs (or its data is returned) only if a configured credential of that auth family occurs verbatim in some header value; nothing runs when nothing is configured. Open rule: the canonical forms are accepted unless that client (by RemoteAddr host) has >=5 recorded failures in the last 16 virtual minutes; forged forwarding headers never move failures onto another client. Unprotected routes always answer 200.",
+            "level_note": "Whether a non-canonical spelling of a right credential (raw token, extra spaces) is accepted is unspecified and only the closed rule applies to it. Lockout durations are implementation-defined, so the oracle only bounds them (16 min). time.Now() in pkg/server/middleware.go is redirected by a generated overlay. pkg/apikey is not wired into the CLI and is not exercised here.",
+        },
+        "rule": ("rapid-generated (configuration, 1-4 routes, request history of 1-25 requests incl. scripted lockout and forged-forwarding scenarios); "
+                 "non-trivial = the history contains a request to a protected route with no configuration, a wrong/odd credential, or the canonical credential; distinct = hash of the whole case"),
+        "assumptions": ["the process environment is set per case under a mutex (one case at a time per worker process)",
+                        "body execution is observed through the response marker {ran: i, secret: data-i}"],
+        "units": [
+            {"name": "c06-auth", "bin": "cmdglyph", "build": "inpkg:cmd/glyph", "run": "^TestC06Auth$", "quick": 20000, "thorough": 1000000},
         ],
     },
     "C20": {
